@@ -10,7 +10,7 @@ FUNCTIONS = [
     "batchie.scoring.gaussian_dbal.dbal_fast_gauss_scoring_vectorized (triple selection part)",
 ]
 BOUNDS = {
-    "quick": "every n<=10, k<=4 (and k=0, k>n): index symbolic over [0,C(n,k)); scoring use: n_thetas<=5, every draw of rng.choice",
+    "quick": "every n<=10, k<=4 (and k=0, k>n): index symbolic over [0,C(n,k)); scoring use: n_thetas<=5 with every draw of rng.choice, and n_thetas 12/30/150 (default budget) with an adversarial generator",
     "thorough": "every n<=18, k<=4; scoring use: n_thetas<=5",
 }
 ASSUMPTIONS = [
@@ -33,6 +33,10 @@ def configs(tier, seed):
             out.append(dict(name="unrank n=%d k=%d" % (n, k), h="unrank", n=n, k=k))
     for nt, mc in ((3, 5), (4, 2), (4, 10), (5, 2)) + (((5, 3),) if tier != "quick" else ()):
         out.append(dict(name="triples nt=%d max=%d" % (nt, mc), h="triples", nt=nt, max_combos=mc))
+    # sparse regimes (triple space far larger than the budget, production sizes included) with an adversarial generator:
+    # it returns the worst sequence its contract allows (all-equal indices whenever it is asked to draw with replacement)
+    for nt, mc in ((12, 2), (30, 7), (150, 5000)) + (((300, 5000), (600, 5000)) if tier != "quick" else ()):
+        out.append(dict(name="triples nt=%d max=%d adversarial generator" % (nt, mc), h="triples", nt=nt, max_combos=mc, adversarial=True))
     return out
 
 
@@ -67,8 +71,19 @@ def h_unrank(ctx, cfg):
     return list(t)
 
 
-class _Theta:
-    pass
+class _Adversarial:
+    """a generator that honours numpy's contract in the least helpful way: without replacement it returns distinct
+    (spread-out) elements, with replacement it returns the same element every time"""
+
+    def choice(self, a, size=None, replace=True, p=None):
+        n = int(a)
+        k = int(size)
+        if replace:
+            return [n // 2] * k
+        if k > n:
+            raise ValueError("Cannot take a larger sample than population when replace is False")
+        step = max(1, n // k)
+        return [(i * step) % n for i in range(k)] if step * (k - 1) < n else list(range(k))
 
 
 def h_triples(ctx, cfg):
@@ -88,7 +103,7 @@ def h_triples(ctx, cfg):
         preds = np.array([[[float(t + 1)] for t in range(nt)]], dtype=float)
         var = np.array([[[1.0] for t in range(nt)]], dtype=float)
         D = np.array([[0.0 if i == j else 1.0 for j in range(nt)] for i in range(nt)], dtype=float)
-        gd.dbal_fast_gauss_scoring_vectorized(preds, var, D, ctx.rng("R"), max_combos=mc)
+        gd.dbal_fast_gauss_scoring_vectorized(preds, var, D, _Adversarial() if cfg.get("adversarial") else ctx.rng("R"), max_combos=mc)
     finally:
         gd.get_combination_at_sorted_index = real
     C = math.comb(nt, 3)
